@@ -53,7 +53,7 @@ def render_item(it, top=True):
     elif k == "forced":
         s = f"&&'{it['s']}'"
     elif k == "group":
-        s = "(" + " | ".join(render_alt(a, None, 0) for a in it["alts"]) + ")"
+        s = "(" + " | ".join(render_alt(a, "grp", j) for j, a in enumerate(it["alts"])) + ")"
     else:
         raise ValueError(k)
     if it.get("name"):
@@ -327,7 +327,21 @@ def gen_grammar(r: random.Random, allow_leftrec=True):
             return {"k": "tok", "s": r.choice(TOKENS)}
         if k < 0.85 or depth >= 2:
             return {"k": "rule", "n": r.choice(names)}
-        return {"k": "group", "alts": [{"items": [atom(depth + 1, ri) for _ in range(r.randint(1, 2))], "action": None} for _ in range(r.randint(1, 3))]}
+        alts = []
+        for _ in range(r.randint(1, 3)):
+            its = [atom(depth + 1, ri) for _ in range(r.randint(1, 2))]
+            action = None
+            if r.random() < 0.35:
+                action = "tuple"
+                c = 0
+                for it in its:
+                    if r.random() < 0.7:
+                        it["name"] = "uvwxyz"[c]
+                        c += 1
+            elif r.random() < 0.2 and its:
+                its[0]["name"] = "u"  # a named item without an action (the name must not matter)
+            alts.append({"items": its, "action": action})
+        return {"k": "group", "alts": alts}
 
     def item(depth, ri):
         k = r.random()
@@ -499,8 +513,8 @@ class Ref:
                 return it["s"], pos + 1
             raise Raise(f"expected '{it['s']}'")
         if k == "group":
-            for alt in it["alts"]:
-                v, e, cut = self.alt(alt, pos, "grp")
+            for j, alt in enumerate(it["alts"]):
+                v, e, cut = self.alt(alt, pos, f"grp_{j}")
                 if v is not FAIL and truthy(v):
                     return v, e
                 if cut:
